@@ -116,6 +116,57 @@ func rt_11(c *core.Ctx, p *core.Prog) {
 			c.OK(key, p.Pos(a.ta.Pos()), core.FuncName(dec), fmt.Sprintf("case %s writes %s", t.typ, t.writer))
 		}
 	}
+	// list arm: every element of the decoded list yields exactly one element of the target slice (an unset
+	// element is an element: skipping it shifts the later ones)
+	if a := arms["[]interface{}"]; a != nil {
+		var app []*ssa.Call
+		core.EachInstr(dec, func(i ssa.Instruction) {
+			if cl, ok := i.(*ssa.Call); ok {
+				if f := pdataCallee(cl); f != nil && f.Name() == "AppendEmpty" && core.RecvNamed(f).Obj().Name() == "Slice" {
+					app = append(app, cl)
+				}
+			}
+		})
+		okOne := len(app) == 1
+		msg := "the list case appends one element per decoded element"
+		if okOne {
+			var header *ssa.BasicBlock
+			var body map[*ssa.BasicBlock]bool
+			for h, bd := range loopsOf(dec) {
+				if bd[app[0].Block()] && (body == nil || len(bd) < len(body)) {
+					header, body = h, bd
+				}
+			}
+			if header == nil {
+				okOne, msg = false, "the list case does not append inside a loop over the decoded elements"
+			} else {
+				cut := map[core.Edge]bool{}
+				for _, b := range dec.Blocks {
+					if fe := failEdge(b); fe >= 0 {
+						cut[core.Edge{From: b, To: b.Succs[fe]}] = true
+					}
+				}
+				// a path from the loop header round to the header that avoids the append
+				var first ssa.Instruction
+				for _, s := range header.Succs {
+					if body[s] && len(s.Instrs) > 0 {
+						first = s.Instrs[0]
+					}
+				}
+				if first != nil {
+					isApp := func(i ssa.Instruction) bool { return i == ssa.Instruction(app[0]) }
+					if isApp(first) {
+						// trivially on the path
+					} else if skip, _ := (core.PathQuery{Fn: dec, From: first, To: header.Instrs[0], Avoid: isApp, CutEdges: cut}).Exists(); skip {
+						okOne, msg = false, "an iteration over the decoded list can finish without appending an element to the target slice (e.g. unset elements are skipped): the list comes back shorter and later elements shift"
+					}
+				}
+			}
+		} else {
+			msg = fmt.Sprintf("expected one Slice.AppendEmpty in decode, found %d", len(app))
+		}
+		c.Check(okOne, "dec|list-elements", p.Pos(a.ta.Pos()), core.FuncName(dec), msg, msg)
+	}
 	// encoder: an arm per ValueType with the matching getter
 	want := map[string]string{"ValueTypeStr": "Str", "ValueTypeInt": "Int", "ValueTypeDouble": "Double", "ValueTypeBool": "Bool", "ValueTypeBytes": "Bytes", "ValueTypeMap": "Map", "ValueTypeSlice": "Slice"}
 	var vtT *types.Named
@@ -163,6 +214,6 @@ func rt_11(c *core.Ctx, p *core.Prog) {
 
 func init() {
 	for _, prop := range []string{"C01", "C02", "C03"} {
-		register(prop, &core.Rule{ID: "RT.11", Title: "CBOR case agreement: decode has a case for every Go type the library yields, encode an arm for every value type", Mod: core.ModRoot, Floor: 12, Run: rt_11})
+		register(prop, &core.Rule{ID: "RT.11", Title: "CBOR case agreement: decode has a case for every Go type the library yields, encode an arm for every value type", Mod: core.ModRoot, Floor: 13, Run: rt_11})
 	}
 }
